@@ -370,6 +370,17 @@ class World:
                     return True
         return False
 
+    def mapped_levels(self, F, f):
+        """largest number of mapped basins in a row through which f can reach F"""
+        if not F.exists or f in F.stored:
+            return 0
+        best = 0
+        for B in F.basins:
+            if B["internal"] is not None or (B["feats"] is not None and f not in B["feats"]) or not self.locatable(F, B):
+                continue
+            best = max(best, (1 if B["map"] is not None else 0) + self.mapped_levels(B["target"], f))
+        return best
+
     def has_noid(self, F):
         return F.noid or any(B["target"] is not None and self.has_noid(B["target"]) for B in F.basins)
 
@@ -1020,13 +1031,23 @@ class World:
                                 f"{F.name} (n={F.n}, depth {F.depth}): feature {f} differs from the origin data at the mapped events: "
                                 f"delivered identities (provider, event) {decode(f, got)}, expected {[tuple(int(v) for v in x) for x in exp[:6]]}"
                                 f"; shape {np.shape(got) if f not in ('contour', 'trace') else '-'}", sig)
-            if not bad:
-                bad = self.check_basins(F, ds, why)
         finally:
             try:
                 ds.close()
             except Exception:
                 pass
+        if not bad and F.basins:
+            # (a fresh instance: a second read of a scalar through the same proxy object takes dclab's per-event route,
+            # whose cost grows as n**depth through nested mapped basins)
+            ds2 = self.open_ds(F, self.sig_for(F, why))
+            if ds2 is not None:
+                try:
+                    bad = self.check_basins(F, ds2, why)
+                finally:
+                    try:
+                        ds2.close()
+                    except Exception:
+                        pass
         if bad:
             F.tainted = True
         ctx.log("o", f"check {F.name} why={why} fs={F.fs} {'BAD' if bad else 'ok'}", " ".join(summary))
@@ -1119,6 +1140,11 @@ class World:
             index = np.sort(rs.choice(n, size=k, replace=False))
         else:
             index = slice(None)
+        twice = (0, 1)
+        if acc == "asarray2" and n ** self.mapped_levels(F, f) > 20000:
+            # the repeated conversion costs n**levels element reads in dclab: one conversion only
+            twice = (0,)
+            ctx.count("asarray_once_only")
         ds = self.open_ds(F, sig)
         if ds is None:
             return
@@ -1136,9 +1162,9 @@ class World:
                         out[nm] = len(o)
                     elif acc == "asarray2":
                         if f == "contour":
-                            out[nm] = [[np.asarray(o[i]) for i in range(n)] for _ in (0, 1)]
+                            out[nm] = [[np.asarray(o[i]) for i in range(n)] for _ in twice]
                         else:
-                            out[nm] = [np.array(np.asarray(o)), np.array(np.asarray(o))]
+                            out[nm] = [np.array(np.asarray(o)) for _ in twice]
                     elif f == "contour" and acc in ("int", "negint"):
                         out[nm] = np.asarray(o[index])
                     elif f == "contour":
